@@ -84,7 +84,7 @@ define('C12', 'math aggregates', HELP('math', 'formal') + [op('scalar', 'scan_mu
        level='other', level_why='partial: the accumulator identities are discharged deductively over the reals, but the relative-error bound the property is about (IEEE-754 rounding of an '
        'unbounded fold) is not decided by any contract in reach of z3/cvc5; it is checked against an exact rational oracle on a stated bounded scope only')
 define('C13', 'item-level errors', STORE + [op('scalar', n) for n in ('map_mux', 'filter_mux', 'scan_mux')] + ERRORS + [op('seqops', 'demux_observable'), op('seqops', 'demux_mux_observable')]
-       + HELP('misc') + [bounded('mux', 'check_c13')], A_COMMON, 'DESIGN 7/C13')
+       + HELP('misc') + [fn('tee', 'unit_tee_map', n=n, join='merge', which='termination') for n in (2, 3)] + [bounded('mux', 'check_c13')], A_COMMON, 'DESIGN 7/C13')
 define('C14', 'memory store', STORE + [bounded('mux', 'check_c14')], A_COMMON[:3] + A_COMMON[6:9], 'DESIGN 7/C14')
 
 define('C15', 'framing round trip', [fn('framing', 'unit_framing', which='line'), fn('framing', 'unit_framing', which='length_prefix')] + LEAN('L4') + [bounded('io', 'check_c15')],
